@@ -149,7 +149,7 @@ fn ftype_letter(t: &FileType) -> &'static str {
     }
 }
 
-fn mk_ftype(s: &str) -> Option<FileType> {
+pub fn mk_ftype(s: &str) -> Option<FileType> {
     Some(match s {
         "b" => FileType::Block,
         "c" => FileType::Character,
